@@ -668,6 +668,26 @@ func (it *c10Interp) call(x *ssa.Call, get func(ssa.Value) *cval, depth int) *cv
 			{t: types.Typ[types.Float64], isF: true, f: frac, dep: v.dep},
 			{t: types.Typ[types.Int], i: big.NewInt(int64(exp)), dep: v.dep, mono: v.dep && v.pure && v.bad == ""},
 		}}
+	case "math.Floor", "math.Ceil", "math.Trunc":
+		// non-decreasing step functions of their argument: equal traces at both ends of a cell still mean equal traces inside
+		v := get(x.Call.Args[0])
+		if v == nil {
+			return nil
+		}
+		if !v.isF {
+			it.undec = n + " of a non-float at " + it.c.pos(x.Pos())
+			return nil
+		}
+		r := v.f
+		switch n {
+		case "math.Floor":
+			r = math.Floor(v.f)
+		case "math.Ceil":
+			r = math.Ceil(v.f)
+		case "math.Trunc":
+			r = math.Trunc(v.f)
+		}
+		return &cval{t: x.Type(), isF: true, f: r, dep: v.dep, pure: v.pure, bad: v.bad}
 	case "math.IsInf", "math.IsNaN":
 		v := get(x.Call.Args[0])
 		if v == nil {
